@@ -98,7 +98,27 @@ pub fn vary(r: &mut Rng, mut p: Vec<P>) -> (Vec<P>, f64) {
 pub fn to_pt2s(p: &[P]) -> Pt2s { Pt2s::from_pt2s(p.iter().map(|&(x, y)| Pt2::new(x, y)).collect()) }
 
 /// clockwise simple profile for the mesh builders (moderate scale)
+/// polygons with straight-angle vertices on an exactly vertical left-most side and on other sides (exact collinearities)
+pub fn straight_corpus() -> Vec<Vec<P>> {
+    vec![
+        vec![(0.0, 0.0), (2.0, 0.0), (2.0, 2.0), (0.0, 2.0), (0.0, 1.0)],
+        vec![(0.0, 0.0), (1.0, 0.0), (3.0, 0.0), (3.0, 2.0), (0.0, 2.0), (0.0, 1.5), (0.0, 0.5)],
+        vec![(0.0, 0.0), (2.0, 0.0), (2.0, 1.0), (1.0, 1.0), (1.0, 2.0), (0.0, 2.0), (0.0, 1.0)],
+        vec![(5.0, 0.0), (7.0, 1.0), (7.0, 3.0), (5.0, 4.0), (5.0, 3.0), (5.0, 1.0)],
+    ]
+}
+
 pub fn cw_profile(r: &mut Rng, max_n: usize) -> (Vec<P>, &'static str) {
+    // one profile in six: a corpus outline with mid-edge vertices, clockwise, from a random cyclic start and at one of three
+    // scales, un-rotated (the winding decision of the cap triangulator depends on which vertex comes last)
+    if r.below(6) == 0 {
+        let c = straight_corpus(); let base = &c[r.below(c.len() as u64) as usize];
+        let sc = *r.pick(&[1.0, 1e-3, 25.4]);
+        let mut p: Vec<P> = base.iter().map(|q| (q.0 * sc + 0.5 * sc, q.1 * sc)).collect();
+        if area2(&p) > 0.0 { p.reverse(); }
+        let k = r.below(p.len() as u64) as usize; p.rotate_left(k);
+        if p.len() <= max_n.max(7) { return (p, "corpus_straight_vertices"); }
+    }
     loop {
         let (p, name) = base_polygon(r, max_n);
         if p.len() < 4 { continue; }
@@ -113,12 +133,7 @@ pub fn emit_tri(seed: u64, n: usize, max_n: usize) {
     let mut queue: Vec<(Vec<P>, &'static str)> = Vec::new();
     // corpus (runs first): straight-angle vertices on an exactly vertical left-most side and on the other sides, an L bracket with
     // mid-edge vertices, at three scales; every cyclic start and both windings, un-rotated
-    let corpus: Vec<Vec<P>> = vec![
-        vec![(0.0, 0.0), (2.0, 0.0), (2.0, 2.0), (0.0, 2.0), (0.0, 1.0)],
-        vec![(0.0, 0.0), (1.0, 0.0), (3.0, 0.0), (3.0, 2.0), (0.0, 2.0), (0.0, 1.5), (0.0, 0.5)],
-        vec![(0.0, 0.0), (2.0, 0.0), (2.0, 1.0), (1.0, 1.0), (1.0, 2.0), (0.0, 2.0), (0.0, 1.0)],
-        vec![(5.0, 0.0), (7.0, 1.0), (7.0, 3.0), (5.0, 4.0), (5.0, 3.0), (5.0, 1.0)],
-    ];
+    let corpus: Vec<Vec<P>> = straight_corpus();
     for base in corpus.iter() { for sc in [1.0, 1e-3, 25.4] {
         let scd: Vec<P> = base.iter().map(|q| (q.0 * sc, q.1 * sc)).collect();
         for w in 0..2 { for k in 0..scd.len() { let mut q = scd.clone(); if w == 1 { q.reverse(); } q.rotate_left(k); queue.push((q, "corpus_straight_vertices")); } }
